@@ -194,6 +194,9 @@ def run(ctx):
     # C01_ground_acyclic_correct (upstream of C01_pipeline_downstream)
     import ground_util
     gerr = ground_util.guarded(ctx, "all", 200, 6000)
+    import groundfo_util           # the same on programs WITH variables (first-order model, exact correspondence)
+    gerr2 = groundfo_util.guarded(ctx, "all", 150, 5000)
+    gerr = gerr or gerr2
     if ground_util.is_ground_replay(ctx):
         return ground_util.after(ctx.finish("proof"), gerr)     # (the replay belongs to the phase above)
     rc = _run_rest(ctx)
